@@ -36,6 +36,26 @@ def zero_exit(target, ordinal):
   ZERO_EXIT.add((target, ordinal))
 
 
+def define_on_entry(target, ordinal, over, text):
+  """ghost DEFINITION introduced when the loop is entered (e.g. `is_initial(A_old)` names the matrix the loop starts from);
+  assumed on entry only -- never at the havoc head"""
+  def deco(fn):
+    e = INVARIANTS.setdefault((target, ordinal), dict(over=over, inv=None))
+    e['entry_def'] = fn
+    e['entry_def_text'] = text
+    return fn
+  return deco
+
+
+def local_invariant(target, ordinal, over):
+  """fact about variables that the loop body binds (e.g. the best checkpoint): proved at the end of the symbolic iteration on
+  every path where they are bound, and then assumed for their value after the loop"""
+  def deco(fn):
+    INVARIANTS.setdefault((target, ordinal), dict(over=over, inv=None))['local'] = fn
+    return fn
+  return deco
+
+
 def assume_at_head(target, ordinal, over, text):
   """ghost hypothesis of the property (not proved; listed as an assumption): assumed at the loop head and on entry"""
   def deco(fn):
@@ -415,7 +435,10 @@ def one_loop(ex, st, p, it, module, is_for, inv, target, ordinal, optional=froze
     note = 'ghost hypothesis at loop line %d: %s' % (st.lineno, inv.get('assume_text', ''))
     if note not in p.notes:
       p.notes.append(note)
+  if inv is not None and inv.get('entry_def') is not None:
+    p.assume(inv['entry_def'](view(ex, p)))
   brk = inv.get('at_break') if inv is not None else None
+  local = inv.get('local') if inv is not None else None
   if inv is not None and inv.get('inv') is None:
     inv = None
   if inv is not None:
@@ -516,6 +539,11 @@ def one_loop(ex, st, p, it, module, is_for, inv, target, ordinal, optional=froze
       q.side.append(('loop-shape', tag, list(q.pc), z3.And(*conds), 'arrays written by the loop keep their shape'))
     if inv is not None:
       q.side.append(('loop-inv-preserved', tag, list(q.pc), inv['inv'](view(ex, q), view(ex, head)), 'value invariant re-established'))
+  if local is not None:
+    for q in ends + breaks:
+      g = local(view(ex, q))
+      if g is not None:
+        q.side.append(('loop-local-inv', tag, list(q.pc), g, 'fact about loop-bound variables at the end of the iteration'))
   if brk is not None:
     for q in breaks:
       q.side.append(('loop-at-break', tag, list(q.pc), brk(view(ex, q), view(ex, head)), 'assertion at every `break` of the loop'))
@@ -569,6 +597,10 @@ def one_loop(ex, st, p, it, module, is_for, inv, target, ordinal, optional=froze
       note = 'loop at line %d assumed to execute at least once where `%s` is read afterwards' % (st.lineno, k)
       if note not in exit_p.notes:
         exit_p.notes.append(note)
+  if local is not None:
+    g = local(view(ex, exit_p))
+    if g is not None:
+      exit_p.assume(g)
   out = []
   zero_paths = []
   if is_for and n_iter is not None and z3.is_expr(n_iter) and (target, ordinal) in ZERO_EXIT:
